@@ -1,2 +1,3 @@
-/- driver stub for C05: replaced when the model exists -/
-def main : IO Unit := pure ()
+/- driver for C05: lockstep model of the transaction state machines (shared with C11/C12) -/
+import BacVerif.Drv.TsmDrv
+def main : IO Unit := BacVerif.Drv.tsmMain
